@@ -42,7 +42,7 @@ def plan(tier):
 
     if tier == "quick":
         return dict(shards=16, examples=3200, time_budget_s=900, min_nontrivial=20000, env=env)
-    return dict(shards=16, examples=32000, time_budget_s=3400, min_nontrivial=200000, env=env)
+    return dict(shards=16, examples=32000, time_budget_s=3400, min_nontrivial=80000, env=env)
 
 
 class _NumpyBackend:
